@@ -71,7 +71,8 @@ def make_env(debug=False):
     for i, c in enumerate(CODES8):
         vars_['v_e%s' % 'abcdefgh'[i]] = sing[i]
         cells['E%d' % (i + 1)] = sing[i]
-    return Env(vars=vars_, cells=cells, ranges={'A1:B2': [7, 8]}, funcs={'ERET': lambda k: sing[k], 'ERAISE': eraise}, debug=debug)
+    vars_['v_weird'] = err.XLError('#WEIRD')
+    return Env(vars=vars_, cells=cells, ranges={'A1:B2': [7, 8]}, funcs={'ERET': lambda k: sing[k], 'ERAISE': eraise, 'ID': lambda x: x, 'HOSTERR': lambda: err.XLError('no such row')}, debug=debug)
 
 
 REF_ENV = {'vars': {'v_a': 4, 'v_b': 9, 'v_arr': [3, 4, 5]}, 'cells': {'B2': 6}, 'ranges': {'A1:B2': [7, 8]}, 'funcs': {}}
@@ -85,6 +86,10 @@ def has_error_leaf(t):
 def prop_case(draw):
     with_lit = draw(st.integers(0, 3)) == 0
     t = draw(gf.tree_strategy(leaf_mix(3, 2 if with_lit else 0), ops=OPS_ALL, max_leaves=8))
+    if draw(st.integers(0, 9)) == 0:
+        # an error object made by the host whose text is no spreadsheet code: it propagates like any error and is reported as #ERROR!
+        w = ['src', draw(st.sampled_from(['v_weird', 'ID(v_weird)', 'HOSTERR()'])), '#ERROR!']
+        t = ['bin', draw(st.sampled_from(OPS_ALL)), w, t] if draw(st.booleans()) else (['neg', w] if draw(st.booleans()) else w)
     if not has_error_leaf(t):
         t = ['bin', draw(st.sampled_from(OPS_ALL)), t, draw(sources)[:3]] if draw(st.booleans()) else ['bin', draw(st.sampled_from(OPS_ALL)), draw(sources)[:3], t]
     if draw(st.integers(0, 5)) == 0:
